@@ -665,7 +665,17 @@ def a1(ctx, res):
     rets_ea = {norm(_re_(p_)) for p_ in enumerate_paths(_view(ea, ctx.prog).body) if p_.exit == "return" and _re_(p_) is not None}
     ok_ea = has("type(self).__orig_bases__[0].__args__[0]", ea) and "'Any'" in rets_ea and any(r_.endswith(".__name__") for r_ in rets_ea) \
         and len(rets_ea) == 2
-    res.judge(True if ok_ea else None, ea,
+
+    def rec_tv(e):
+        ia_ = isinstance_atom(e)
+        if ia_ and ia_[1] == ["TypeVar"]:
+            return ("TV", ia_[2])
+        return None
+    tbl_tv, opq_tv = decision_table(_view(ea, ctx.prog).body, ["TV"], rec_tv,
+                                    lambda p_: norm(_re_(p_)) if p_.exit == "return" and _re_(p_) is not None else p_.exit)
+    untyped = tbl_tv.get((True,), set())
+    wrong_untyped = bool(untyped) and any(u_ != "'Any'" and u_ not in ("raise", "fall") for u_ in untyped)
+    res.judge(True if ok_ea else (False if wrong_untyped else None), ea,
               "generic argument name, or Any for the un-typed element", reason="annotation is read from the class header")
     om = ctx.cls("ObjectMeta").props["annotation"]["get"]
     res.check(has("return cls.__name__", om), om, "return cls.__name__", reason="a model class is annotated by its own name")
